@@ -76,6 +76,16 @@ func checkC17(c *Ctx) {
 	c.Decides("BUF-FLUSH (shared with C16): every bufio.Writer of the repository (the nni command writes through none today) is flushed before its file is closed - no deferred Flush that runs after an ordinary or a later-deferred close")
 	c.bufFlush("BUF-FLUSH", c.All, "the NNI generator proposes exactly two rearrangements per inner branch")
 	c.Floor("BUF-FLUSH", 3)
+	c.Decides("SEPARATOR (shared with C01): the comma between the children the Newick writer writes is guarded by a count of children written, never by the position in the neighbour list - after an NNI the parent of a node can sit anywhere in that list")
+	c.separatorByCount("SEPARATOR", c.Func("tree", "Node", "Newick"), "applying one gives a well-formed tree on the same tips")
+	c.Floor("SEPARATOR", 1)
+	c.Decides("NO-PREFILTER: Rearrange has no return in front of its loop over the branches other than under an error / nil / empty-list test (no size threshold that yields nothing for small trees); CMD-REACHES: in the nni command nothing between the head of the loop over the input trees and the call of Rearrange leaves the iteration except under an error test")
+	if c.noPrefilter("NO-PREFILTER", c.Func("tree", "NNIRearranger", "Rearrange"), "proposes exactly two rearrangements per inner branch") == 0 {
+		c.Undecided("NO-PREFILTER", "tree.NNIRearranger.Rearrange", token.NoPos, "no top-level loop found in Rearrange")
+	}
+	if c.cmdReaches("CMD-REACHES", "cmd/nni.go", []string{"Rearrange"}, "all binary trees on >= 4 tips (rooted or unrooted, any root position)") == 0 {
+		c.Undecided("CMD-REACHES", "cmd.nni", token.NoPos, "no loop over the input trees that calls Rearrange found in cmd/nni.go")
+	}
 	c.Floor("ENDS", 1)
 	c.Floor("GF", 2)
 	c.Floor("SLOTS", 2)
